@@ -398,12 +398,10 @@ def check_sql(ctx, g, sql, x, y, same, ax, ay, what, witness):
         return
     for monitor, counter in (('parser', 'parser_checked'), ('reader', 'reader_checked')):
         referenced = has_reference(g, ax) or has_reference(g, ay)
-        if monitor == 'parser' and referenced and not same:
-            # the parser's feature cache outlives the parsing context, so elements of a reference come out bound to the
-            # alias object of the *first* parse (known finding, shown on identical pairs): a confusion of two
-            # different statements cannot be told apart from that in the SQL text -> only the reader cache is checked
-            ctx.count('parser_skipped_reference')
-            continue
+        if monitor == 'parser' and referenced:
+            # (until the repair of the reference handles - /repo c08 fixed entry parser-cache-stale-reference-origin - these
+            # pairs were skipped: the parser's feature cache bound elements of a reference to the alias of the first parse)
+            ctx.count('parser_reference_pairs')
         ctx.count(counter)
         ctx.count('evaluations')
         shared = sql.parser()
